@@ -1765,6 +1765,11 @@ int LZ4_saveDictHC (LZ4_streamHC_t* LZ4_streamHCPtr, char* safeBuffer, int dictS
     if (safeBuffer == NULL) assert(dictSize == 0);
     if (dictSize > 0)
         LZ4_memmove(safeBuffer, streamPtr->end - dictSize, (size_t)dictSize);
+    if (dictSize < prefixSize) {
+        /* part of the history is dropped : an attached dictionary
+         * would no longer be adjacent to what remains of the stream */
+        streamPtr->dictCtx = NULL;
+    }
     {   U32 const endIndex = (U32)(streamPtr->end - streamPtr->prefixStart) + streamPtr->dictLimit;
         streamPtr->end = (safeBuffer == NULL) ? NULL : (const BYTE*)safeBuffer + dictSize;
         streamPtr->prefixStart = (const BYTE*)safeBuffer;
